@@ -284,6 +284,38 @@ def inline_locals(f: FuncInfo, e: ast.expr, depth: int = 5, unpack: bool = False
     return T(depth).visit(copy.deepcopy(e))
 
 
+
+def range_pairing(f: FuncInfo, loop: ast.For) -> Optional[dict]:
+    """`for (rng, obj) in zip(RANGES, OBJECTS)` over the inversion's parameter ranges: which objects are paired with which ranges?
+    RANGES = self.param_range_list_from(cls=X) holds one range per instance of X, in list order; it is index-aligned with OBJECTS when OBJECTS is the whole
+    self.linear_obj_list and X is LinearObj (every object), or when OBJECTS is self.cls_list_from(cls=X) for the SAME X (the instances of X, in list order).
+    Returns {rng, obj, cls, filtered, sound} or None when the loop is not such a pairing.  Temporaries are read through; the zip arguments may come in either order."""
+    it = inline_locals(f, loop.iter)
+    if not (isinstance(it, ast.Call) and isinstance(it.func, ast.Name) and it.func.id == "zip" and len(it.args) == 2 and not it.keywords):
+        return None
+    if not (isinstance(loop.target, (ast.Tuple, ast.List)) and len(loop.target.elts) == 2 and all(isinstance(e, ast.Name) for e in loop.target.elts)):
+        return None
+    out = {"rng": None, "obj": None, "cls": None, "objs": None}
+    for a, t in zip(it.args, loop.target.elts):
+        if isinstance(a, ast.Call) and isinstance(a.func, ast.Attribute) and norm_text(a.func.value) == "self" and a.func.attr == "param_range_list_from":
+            b = kw(a)
+            c = b.get("cls") or (a.args[0] if a.args else None)
+            out["rng"], out["cls"] = t.id, norm_text(c) if c is not None else None
+        elif norm_text(a) == "self.linear_obj_list":
+            out["obj"], out["objs"] = t.id, ("all", None)
+        elif isinstance(a, ast.Call) and isinstance(a.func, ast.Attribute) and norm_text(a.func.value) == "self" and a.func.attr == "cls_list_from":
+            b = kw(a)
+            c = b.get("cls") or (a.args[0] if a.args else None)
+            if b.get("cls_filtered") is None and len(a.args) <= 1:
+                out["obj"], out["objs"] = t.id, ("cls", norm_text(c) if c is not None else None)
+    if out["rng"] is None or out["obj"] is None:
+        return None
+    kind, oc = out["objs"]
+    out["filtered"] = kind == "cls"
+    out["sound"] = (kind == "all" and out["cls"] == "LinearObj") or (kind == "cls" and oc is not None and oc == out["cls"])
+    return out
+
+
 def see_name(f: FuncInfo, e: ast.expr) -> ast.expr:
     """if e is a bare single-assignment temporary that inline_locals would replace, the expression it was bound to (one step only: names inside stay as written); else e"""
     for _ in range(4):
